@@ -35,53 +35,98 @@ func doRead(in []byte) readOutcome {
 	return ro
 }
 
+// mkdst builds the destination slice handed to Append/AppendWithLen: it always holds exactly `prefix`;
+// the shapes differ in what lies behind it.
+//
+//	fresh      a new allocation made by append (spare capacity, if any, is zero)
+//	full       len == cap: the callee has to reallocate
+//	dirty-ff   a reused scratch buffer: 24 bytes of spare capacity holding 0xff
+//	dirty-rand the same with a non-zero byte pattern that differs per case
+func mkdst(kind string, prefix []byte, k int) []byte {
+	switch kind {
+	case "full":
+		b := make([]byte, len(prefix), len(prefix))
+		copy(b, prefix)
+		return b
+	case "dirty-ff", "dirty-rand":
+		b := make([]byte, len(prefix)+24)
+		for i := range b {
+			if kind == "dirty-ff" {
+				b[i] = 0xff
+			} else {
+				b[i] = byte(1 + (i*131+k*17)%255)
+			}
+		}
+		copy(b, prefix)
+		return b[:len(prefix)]
+	}
+	return append([]byte{}, prefix...)
+}
+
 func init() {
 	// varint: {"values":[B8...], "prefix":[bytes], "widths":[ints], "tail":[bytes]}
-	// per value one event {ev:"V", x, prefix, append, len, awl:[{w, ...}], rt} where rt = Read over (what Append produced ++ tail)
+	// per value one event {ev:"V", x, prefix, append, appends:[{dst, ...}], len, awl:[{w, dst, ...}], rt} where rt = Read over (what Append produced ++ tail)
 	hlib.Register("varint", func(in []byte, out *hlib.Out) error {
 		var req struct {
 			Values [][]int
 			Prefix []int
 			Widths []int
 			Tail   []int
+			Dsts   []string // destination slice shapes, see mkdst; default ["fresh"]
 		}
 		if err := json.Unmarshal(in, &req); err != nil {
 			return err
 		}
 		prefix := hlib.Unints(req.Prefix)
+		dsts := req.Dsts
+		if len(dsts) == 0 {
+			dsts = []string{"fresh"}
+		}
 		type awl struct {
-			W int `json:"w"`
+			W   int    `json:"w"`
+			Dst string `json:"dst"`
+			outcome
+		}
+		type app struct {
+			Dst string `json:"dst"`
 			outcome
 		}
 		type ev struct {
-			Ev     string      `json:"ev"`
-			X      []int       `json:"x"`
-			Prefix []int       `json:"prefix"`
-			Tail   []int       `json:"tail"`
-			Append outcome     `json:"append"`
-			Len    outcome     `json:"len"`
-			AWL    []awl       `json:"awl"`
-			RT     readOutcome `json:"rt"`
-			HasRT  bool        `json:"hasrt"`
+			Ev      string      `json:"ev"`
+			X       []int       `json:"x"`
+			Prefix  []int       `json:"prefix"`
+			Tail    []int       `json:"tail"`
+			Append  outcome     `json:"append"`
+			Appends []app       `json:"appends"`
+			Len     outcome     `json:"len"`
+			AWL     []awl       `json:"awl"`
+			RT      readOutcome `json:"rt"`
+			HasRT   bool        `json:"hasrt"`
 		}
 		evs := make([]ev, len(req.Values))
 		hlib.Parallel(len(req.Values), func(k int) {
 			x := u64(req.Values[k])
-			e := ev{Ev: "V", X: be8(x), Prefix: hlib.Ints(prefix), Tail: hlib.Ints(hlib.Unints(req.Tail)), AWL: []awl{}}
+			e := ev{Ev: "V", X: be8(x), Prefix: hlib.Ints(prefix), Tail: hlib.Ints(hlib.Unints(req.Tail)), AWL: []awl{}, Appends: []app{}}
 			e.Append.Out, e.Len.Out = []int{}, []int{}
 			var enc []byte
 			e.Append.Panic = try(func() {
-				enc = tls.VerifVarintAppend(append([]byte{}, prefix...), x)
+				enc = tls.VerifVarintAppend(mkdst("fresh", prefix, k), x)
 				e.Append.Out = hlib.Ints(enc)
 			})
 			e.Len.Panic = try(func() { e.Len.N = int(tls.VerifVarintLen(x)) })
-			for _, w := range req.Widths {
-				a := awl{W: w}
+			for _, d := range dsts {
+				a := app{Dst: d}
 				a.Out = []int{}
-				a.Panic = try(func() {
-					a.Out = hlib.Ints(tls.VerifVarintAppendWithLen(append([]byte{}, prefix...), x, int64(w)))
-				})
-				e.AWL = append(e.AWL, a)
+				a.Panic = try(func() { a.Out = hlib.Ints(tls.VerifVarintAppend(mkdst(d, prefix, k), x)) })
+				e.Appends = append(e.Appends, a)
+				for _, w := range req.Widths {
+					a := awl{W: w, Dst: d}
+					a.Out = []int{}
+					a.Panic = try(func() {
+						a.Out = hlib.Ints(tls.VerifVarintAppendWithLen(mkdst(d, prefix, k), x, int64(w)))
+					})
+					e.AWL = append(e.AWL, a)
+				}
 			}
 			e.RT = readOutcome{Val: be8(0)}
 			if e.Append.Panic == "" && len(enc) >= len(prefix) {
